@@ -175,3 +175,46 @@ Proof.
   - eexists. split; [|reflexivity]. vm_compute. reflexivity.
 Qed.
 Print Assumptions C15_names_remaining_refuted.
+
+(* ---------- completeness for keys, at every depth, in the places walked by the query and the array walker ---------- *)
+From Proofs Require Import KeyRen.
+Open Scope string_scope.
+
+(* Field-name mode, any tables, any flags, any actions: in the value of query / filter / sort / q / update / u / updates /
+   deletes / documents of a command document, at EVERY index path that ends at a member of an object - whatever operators
+   and arrays lie above it - the output holds at that path either the pseudonym of the input key or the input key itself,
+   and in the second case the key is a WORD of the operator tables (a key of some table at some level). Premises: no
+   duplicate sibling keys, and the pseudonym function merges no two sibling keys (sib_ok). *)
+Theorem C15_keys_renamed_at_every_depth : forall tb cs c A ins k v p name,
+  walked ins k v -> sib_ok A v -> nodup_keys v -> jkey v p = Some name ->
+  jkey (cmd_member tb cs c A true ins k v) p = Some (a_hash A name) \/
+  (jkey (cmd_member tb cs c A true ins k v) p = Some name /\ word tb name).
+Proof. intros tb cs c A ins k v p name Hw Hs Hn Hj. exact (cmd_member_kl tb cs c A ins k v Hw Hs Hn p name Hj). Qed.
+Print Assumptions C15_keys_renamed_at_every_depth.
+
+(* hence: a user field name that is no table word does not remain as a key anywhere in those values *)
+Theorem C15_user_field_renamed_everywhere : forall tb cs c A ins k v p name,
+  walked ins k v -> sib_ok A v -> nodup_keys v -> jkey v p = Some name -> ~ word tb name ->
+  jkey (cmd_member tb cs c A true ins k v) p = Some (a_hash A name).
+Proof.
+  intros tb cs c A ins k v p name Hw Hs Hn Hj Hnw.
+  destruct (C15_keys_renamed_at_every_depth tb cs c A ins k v p name Hw Hs Hn Hj) as [H | [_ H]]; [exact H | contradiction].
+Qed.
+Print Assumptions C15_user_field_renamed_everywhere.
+
+(* the walkers themselves, every mode of the query walker (on a document) and of the array walker (on a list) *)
+Theorem C15_walkers_keys : forall tb cs c is_email A t m,
+  sib_ok A t -> nodup_keys t -> fits tb m t -> KL tb A t (walk tb cs c is_email A m t).
+Proof. exact walk_kl. Qed.
+Print Assumptions C15_walkers_keys.
+
+(* non-vacuity on the regenerated tables: a user field four levels down, below $or, $elemMatch and an array *)
+Example C15_keys_example :
+  let c := {| repl := "REDACTED"; nums := false; bools := false; ips := false; nss := false; eager := ["mydb"]; re := None |} in
+  let A := real_actions current_consts c None in
+  let v := JObj [("$or", JArr [JObj [("items", JObj [("$elemMatch", JObj [("sku", JStr "x"); ("qty", JObj [("$gt", JNum "5")])])])]])] in
+  jkey v [0; 0; 0; 0; 0] = Some "sku" /\
+  jkey (cmd_member current current_consts c A true false "filter" v) [0; 0; 0; 0; 0] = Some (hash_name "REDACTED" "sku") /\
+  jkey (cmd_member current current_consts c A true false "filter" v) [0; 0; 0; 0] = Some "$elemMatch" /\
+  jkey (cmd_member current current_consts c A true false "filter" v) [0; 0; 0; 0; 1; 0] = Some "$gt".
+Proof. vm_compute. repeat split; reflexivity. Qed.
